@@ -1555,7 +1555,7 @@ def build_model():
 def run(ctx):
     import time as _time
     rng = ctx.rng
-    budget = 50.0 if ctx.quick else 900.0
+    budget = 40.0 if ctx.quick else 900.0
     n_target = 3500 if ctx.quick else 80000
     bed = Bed()
     t0 = _time.perf_counter()
